@@ -25,15 +25,18 @@ func TestC02Stateful(t *testing.T) {
 		"Alphabet-only methods receive well-formed 20-byte addresses", "lock targets are fresh addresses")
 	runRapid(t, col, func(rt *rapid.T, h *ev.History) {
 		n := rapid.SampledFrom([]int{1, 3}).Draw(rt, "n")
+		drawValidators(rt, h, n)
 		w := newBalWorld(n, h)
 		defer w.close()
 		w.c02 = true
 		h.Op("committee n=%d", n)
+		// the initial funding carries every authority of the chain (Alphabet, committee and - where they differ - the
+		// consensus nodes), so that there is something to debit even on a tree that mistakes one for another
 		for i, u := range w.users {
-			op := &balOp{kind: "mint", amount: bi(int64(50 * (i + 1))), signers: []neotest.Signer{w.c.Alphabet}, desc: fmt.Sprintf("mint(a%d,%d)", i+1, 50*(i+1))}
+			op := &balOp{kind: "mint", amount: bi(int64(50 * (i + 1))), signers: w.c.Both(), desc: fmt.Sprintf("mint(a%d,%d)", i+1, 50*(i+1))}
 			w.do(op, w.bal, "mint", u.ScriptHash(), op.amount, []byte("init"))
 		}
-		w.do(&balOp{kind: "mint", amount: bi(77), signers: []neotest.Signer{w.c.Alphabet}, desc: "mint(actor,77)"}, w.bal, "mint", w.actor, bi(77), []byte("init"))
+		w.do(&balOp{kind: "mint", amount: bi(77), signers: w.c.Both(), desc: "mint(actor,77)"}, w.bal, "mint", w.actor, bi(77), []byte("init"))
 		kinds := []string{"transfer", "transfer", "transfer", "transfer", "transfer", "transferX", "mint", "mint", "burn", "lock", "newEpoch", "tick"}
 		steps := rapid.IntRange(1, 25).Draw(rt, "steps")
 		for i := 0; i < steps; i++ {
